@@ -406,3 +406,130 @@ Proof.
   - lia.
   - destruct (Hpc w) as [G|G]; rewrite G in E; [discriminate|]. injection E as <- <-. lia.
 Qed.
+
+(** * a due head is started within (number of waiting workers) worker steps *)
+
+(* workers that need one step (timer / token wake-up, callback return) before their next
+   locked section *)
+Definition waiting (c : pc) : Z := match c with Sleeping _ _ | Running _ => 1 | _ => 0 end.
+Definition wait_rank (p : pool) : Z := fold_right (fun c a => waiting c + a) 0 (workers p).
+
+Lemma wait_list_set : forall l w c, (w < length l)%nat ->
+  fold_right (fun c a => waiting c + a) 0 (set_pc_list l w c)
+  = fold_right (fun c a => waiting c + a) 0 l - waiting (nth w l Gone) + waiting c.
+Proof.
+  induction l as [|a l IH]; intros [|w] c Hw; cbn [length] in Hw; try lia;
+    cbn [set_pc_list nth fold_right].
+  - lia.
+  - rewrite IH by lia. lia.
+Qed.
+
+Lemma wait_rank_le_live : forall l, fold_right (fun c a => waiting c + a) 0 l <= count_live l.
+Proof.
+  induction l as [|a l IH]; cbn [fold_right].
+  - unfold count_live. cbn. lia.
+  - rewrite count_live_cons. destruct a; cbn [waiting is_live ind]; lia.
+Qed.
+
+(* with a due head every locked section pops: a Decide starts a callback *)
+Lemma decide_due_starts : forall p w t mis,
+  pool_ok p -> arr (hp p) <> [] -> head_fire (hp p) < now p -> now p <= t ->
+  pc_of p w = Deciding mis -> starts p (LDecide w t) <> None.
+Proof.
+  intros p w t mis Hok Hne Hdue Ht Hpc. unfold starts. rewrite Hpc.
+  assert (C : negb (now p >? t) && negb (f_len (hp p) =? 0) && (t >? head_fire (hp p)) = true).
+  { rewrite !andb_true_iff. repeat split.
+    - apply negb_true_iff. rewrite Z.gtb_ltb. apply Z.ltb_ge. exact Ht.
+    - apply negb_true_iff. apply Z.eqb_neq. intros E. apply f_len_zero in E. contradiction.
+    - apply Z.gtb_lt. lia. }
+  rewrite C.
+  destruct (pop_head (hp p) (po_idx p Hok) Hne) as [[RI RL RD RB RO RX] Hx].
+  destruct (heap_pop (hp p)) as [h1 x]. cbn [fst snd] in *. subst x.
+  assert (Hin : In (anth (arr (hp p)) 0) (arr (hp p))).
+  { unfold anth. apply nth_In. destruct (arr (hp p)); [contradiction|cbn; lia]. }
+  destruct (po_pend p Hok _ Hin) as [_ Hl]. destruct (RD (anth (arr (hp p)) 0)) as [_ L].
+  rewrite L, Hl. discriminate.
+Qed.
+
+Lemma nostart_step : forall p l p',
+  pool_ok p -> arr (hp p) <> [] -> head_fire (hp p) < now p ->
+  worker_label l = true -> step p l = Some p' -> starts p l = None ->
+  hp p' = hp p /\ now p <= now p' /\ wait_rank p' = wait_rank p - 1.
+Proof.
+  intros p l p' Hok Hne Hdue Hl Hs Hns. unfold step in Hs.
+  destruct (label_time l <? now p) eqn:Ht; [discriminate|]. apply Z.ltb_ge in Ht.
+  destruct l as [x d tc nn t|x t|w t|w t|w t|w t]; try discriminate; cbn [label_time] in *.
+  - (* Decide: would start the head *)
+    change (pc_of (with_now p t) w) with (pc_of p w) in Hs.
+    destruct (pc_of p w) as [mis| | |] eqn:Hpc; try discriminate.
+    exfalso. apply (decide_due_starts p w t mis Hok Hne Hdue Ht Hpc). exact Hns.
+  - change (pc_of (with_now p t) w) with (pc_of p w) in Hs.
+    destruct (pc_of p w) as [|mis u| |] eqn:Hpc; try discriminate.
+    destruct (t <? u); [discriminate|]. injection Hs as <-.
+    assert (Hw : (w < length (workers p))%nat) by (apply pc_of_lt; rewrite Hpc; discriminate).
+    cbn [with_pc with_now hp now]. split; [reflexivity|]. split; [exact Ht|].
+    unfold wait_rank. cbn [with_pc with_now workers]. rewrite wait_list_set by exact Hw.
+    change (nth w (workers p) Gone) with (pc_of p w). rewrite Hpc. cbn [waiting]. lia.
+  - change (pc_of (with_now p t) w) with (pc_of p w) in Hs.
+    destruct (pc_of p w) as [|mis u| |] eqn:Hpc; try discriminate.
+    destruct (tokens (with_now p t) >? 0); [|discriminate]. injection Hs as <-.
+    assert (Hw : (w < length (workers p))%nat) by (apply pc_of_lt; rewrite Hpc; discriminate).
+    cbn [with_pc with_now hp now]. split; [reflexivity|]. split; [exact Ht|].
+    unfold wait_rank. cbn [with_pc with_now workers]. rewrite wait_list_set by exact Hw.
+    change (nth w (workers p) Gone) with (pc_of p w). rewrite Hpc. cbn [waiting]. lia.
+  - change (pc_of (with_now p t) w) with (pc_of p w) in Hs.
+    destruct (pc_of p w) as [| |x|] eqn:Hpc; try discriminate. injection Hs as <-.
+    assert (Hw : (w < length (workers p))%nat) by (apply pc_of_lt; rewrite Hpc; discriminate).
+    cbn [with_pc with_now hp now]. split; [reflexivity|]. split; [exact Ht|].
+    unfold wait_rank. cbn [with_pc with_now workers]. rewrite wait_list_set by exact Hw.
+    change (nth w (workers p) Gone) with (pc_of p w). rewrite Hpc. cbn [waiting]. lia.
+Qed.
+
+Lemma wait_rank_nonneg : forall p, 0 <= wait_rank p.
+Proof.
+  intros p. unfold wait_rank. induction (workers p) as [|a l IH]; cbn [fold_right]; [lia|].
+  destruct a; cbn [waiting]; lia.
+Qed.
+
+(* while the head is due, a run of worker labels in which no callback starts has at most
+   [wait_rank p <= watchers p] steps: after that every live worker is about to enter its
+   locked section, and the first one that does pops the head.  With [never_stuck] (some
+   worker label is always enabled): a scheduler that keeps taking enabled worker labels
+   starts the earliest due future after at most watchers + 1 of them. *)
+Theorem due_head_start_bounded : forall tr p p',
+  pool_ok p -> arr (hp p) <> [] -> head_fire (hp p) < now p ->
+  forallb worker_label tr = true -> run p tr = Some p' -> trace_starts p tr = [] ->
+  Z.of_nat (length tr) <= wait_rank p.
+Proof.
+  induction tr as [|l tr IH]; intros p p' Hok Hne Hdue Hl Hr Hts.
+  - cbn [length]. pose proof (wait_rank_nonneg p). lia.
+  - cbn [forallb] in Hl. apply andb_prop in Hl. destruct Hl as [Hl1 Hl2].
+    cbn [run] in Hr. cbn [trace_starts] in Hts.
+    destruct (step p l) as [p1|] eqn:Es; [|discriminate].
+    destruct (starts p l) as [x|] eqn:Est; [discriminate|].
+    destruct (nostart_step p l p1 Hok Hne Hdue Hl1 Es Est) as [Hh [Hn Hrk]].
+    assert (Hok1 : pool_ok p1) by (apply (sf_ok _ _ _ (step_facts_hold p l p1 Hok Es))).
+    specialize (IH p1 p' Hok1). rewrite Hh in IH. specialize (IH Hne ltac:(lia) Hl2 Hr Hts).
+    cbn [length]. lia.
+Qed.
+
+Lemma wait_rank_le_watchers : forall p, pool_inv p -> wait_rank p <= watchers p.
+Proof. intros p H. rewrite (pi_watch p H). apply wait_rank_le_live. Qed.
+
+(* reachable form: from a reachable state whose head is due, every accepted run of more than
+   [watchers] worker labels starts a callback (and by [started_is_minimal] the first one
+   started is a future with the smallest fire time) *)
+Theorem due_head_started_within : forall i m c k tr0 p tr p',
+  0 <= i -> 1 <= m -> 1 <= c -> 0 <= k <= c ->
+  run (init_pool i m c k) tr0 = Some p ->
+  arr (hp p) <> [] -> head_fire (hp p) < now p ->
+  forallb worker_label tr = true -> run p tr = Some p' ->
+  watchers p < Z.of_nat (length tr) ->
+  trace_starts p tr <> [].
+Proof.
+  intros i m c k tr0 p tr p' Hi Hm Hc Hk Hr0 Hne Hdue Hl Hr Hlen Hts.
+  pose proof (pool_ok_reachable i m c k tr0 p Hr0) as Hok.
+  pose proof (pool_inv_reachable i m c k tr0 p Hi Hm Hc Hk Hr0) as Hinv.
+  pose proof (due_head_start_bounded tr p p' Hok Hne Hdue Hl Hr Hts).
+  pose proof (wait_rank_le_watchers p Hinv). lia.
+Qed.
